@@ -12,10 +12,10 @@ import (
 	"reflect"
 	"runtime"
 	"runtime/debug"
-	"time"
+	"sort"
 	"strconv"
 	"strings"
-	"sort"
+	"time"
 
 	"github.com/enbility/spine-go/api"
 	"github.com/enbility/spine-go/model"
@@ -51,22 +51,23 @@ func (a Action) strs(k string) []string {
 }
 
 type AbsState struct {
-	Conn   []string            `json:"conn"`
-	Known  map[string][]string `json:"known"`
-	Feats  map[string][]FeatVer `json:"feats"`
-	Subs   []RegEntry          `json:"subs"`
-	Binds  []RegEntry          `json:"binds"`
-	SubIds []uint64            `json:"subids"`
-	BindIds []uint64           `json:"bindids"`
-	CSub   []CEntry            `json:"csub"`
-	CBind  []CEntry            `json:"cbind"`
-	Data   map[string]int      `json:"data"`
-	RData  map[string]int      `json:"rdata"`
-	Nid    int                 `json:"nid"`
-	Ucs    []AbsUc             `json:"ucs"`
-	HasUc  []UcKey             `json:"hasuc"`
-	Res    map[string]bool     `json:"res"`  // peer resolvable by SKI
-	ResA   map[string]bool     `json:"resa"` // peer resolvable by device address
+	Conn    []string             `json:"conn"`
+	Known   map[string][]string  `json:"known"`
+	Feats   map[string][]FeatVer `json:"feats"`
+	Subs    []RegEntry           `json:"subs"`
+	Binds   []RegEntry           `json:"binds"`
+	SubIds  []uint64             `json:"subids"`
+	BindIds []uint64             `json:"bindids"`
+	CSub    []CEntry             `json:"csub"`
+	CBind   []CEntry             `json:"cbind"`
+	Data    map[string]int       `json:"data"`
+	RData   map[string]int       `json:"rdata"`
+	RUcs    map[string]int       `json:"rucs"`
+	Nid     int                  `json:"nid"`
+	Ucs     []AbsUc              `json:"ucs"`
+	HasUc   []UcKey              `json:"hasuc"`
+	Res     map[string]bool      `json:"res"`  // peer resolvable by SKI
+	ResA    map[string]bool      `json:"resa"` // peer resolvable by device address
 }
 type UcKey struct {
 	E     string `json:"e"`
@@ -323,7 +324,12 @@ func (s *System) exec(a Action, p *Peer, line *TraceLine) (injected uint64) {
 	ack := a.boolean("ack")
 	switch kind {
 	case "connect":
-		p.reader = s.dev.SetupRemoteDevice(p.ski, p.w)
+		if strings.HasPrefix(p.name, "m") {
+			// a mute peer: the connection has no write handler, every send to it fails
+			p.reader = s.dev.SetupRemoteDevice(p.ski, nil)
+		} else {
+			p.reader = s.dev.SetupRemoteDevice(p.ski, p.w)
+		}
 		if s.needOffsets {
 			// message counters are per connection; keep the counters of different connections apart so that
 			// "the id of a request" is unambiguous in the abstraction (callbacks are keyed by counter only)
@@ -353,6 +359,8 @@ func (s *System) exec(a Action, p *Peer, line *TraceLine) (injected uint64) {
 		var ref *uint64
 		if c, ok := p.lastReq["discovery"]; ok {
 			ref = &c
+		} else if strings.HasPrefix(p.name, "m") {
+			ref = ptr(uint64(424242)) // (the discovery read never reached a mute peer)
 		}
 		d := s.discoveryData(p, ents, nil, true, true)
 		injected = s.inject(p, model.CmdClassifierTypeReply, s.remoteAddr(p, "nm"), s.nmLocal(), ack, ref,
@@ -554,9 +562,26 @@ func emptyData(fn string) any {
 
 // ---------- projection through public getters ----------
 
+// remoteUcVal: the version of the peer's use cases as DeviceRemote.UseCases reports them (0 = none, -1 = unexpected)
+func remoteUcVal(rd api.DeviceRemoteInterface) (v int) {
+	defer func() {
+		if r := recover(); r != nil {
+			v = -2
+		}
+	}()
+	ucs := rd.UseCases()
+	if len(ucs) == 0 {
+		return 0
+	}
+	if len(ucs) != 1 || len(ucs[0].UseCaseSupport) != 1 || len(ucs[0].UseCaseSupport[0].ScenarioSupport) != 1 {
+		return -1
+	}
+	return int(ucs[0].UseCaseSupport[0].ScenarioSupport[0])
+}
+
 func (s *System) project() *AbsState {
 	st := &AbsState{Conn: []string{}, Known: map[string][]string{}, Feats: map[string][]FeatVer{}, Subs: []RegEntry{}, Binds: []RegEntry{}, SubIds: []uint64{}, BindIds: []uint64{},
-		Nid: len(s.idCtr), CSub: []CEntry{}, CBind: []CEntry{}, Data: map[string]int{}, RData: map[string]int{}, Res: map[string]bool{}, ResA: map[string]bool{}}
+		Nid: len(s.idCtr), CSub: []CEntry{}, CBind: []CEntry{}, Data: map[string]int{}, RData: map[string]int{}, RUcs: map[string]int{}, Res: map[string]bool{}, ResA: map[string]bool{}}
 	for _, pn := range s.topo.Peers {
 		p := s.peers[pn]
 		st.Known[pn] = []string{}
@@ -565,7 +590,9 @@ func (s *System) project() *AbsState {
 		st.Res[pn] = rd != nil
 		st.ResA[pn] = s.dev.RemoteDeviceForAddress(model.AddressDeviceType(p.devAddr)) != nil
 		st.RData[pn] = 0
+		st.RUcs[pn] = 0
 		if rd != nil {
+			st.RUcs[pn] = remoteUcVal(rd)
 			if rf := rd.FeatureByAddress(s.remoteAddr(p, "s14")); rf != nil && !isNilIface(rf) {
 				st.RData[pn] = dataVal(fnMap["limit"], rf.DataCopy(fnMap["limit"]))
 			}
@@ -677,6 +704,11 @@ func (s *System) payloadCmd(pl string, v int, cls string) model.CmdType {
 		cmd.ResultData = &model.ResultDataType{Description: ptr(model.DescriptionType("no number"))}
 	case "usecase":
 		cmd.NodeManagementUseCaseData = &model.NodeManagementUseCaseDataType{}
+		if cls != "read" {
+			// the peer's use cases in "version" v: one actor, one use case, scenario v
+			cmd.NodeManagementUseCaseData.UseCaseInformation = []model.UseCaseInformationDataType{{Actor: ptr(model.UseCaseActorTypeCEM),
+				UseCaseSupport: []model.UseCaseSupportType{{UseCaseName: ptr(model.UseCaseNameType("ucR")), ScenarioSupport: []model.UseCaseScenarioSupportType{model.UseCaseScenarioSupportType(v)}}}}}
+		}
 	case "subdata":
 		cmd.NodeManagementSubscriptionData = &model.NodeManagementSubscriptionDataType{}
 	case "binddata":
@@ -753,19 +785,20 @@ func (s *System) fired(k string, cb int, kind string, msg api.ResponseMessage) {
 
 func dataValAny(d any) int { return dataVal("", d) }
 
-// four distinct function literals (the stack compares code pointers to refuse "the same callback")
+// response callbacks: distinct function literals (the stack compares code pointers to refuse "the same callback")
 func (s *System) respCb1(k string) func(api.ResponseMessage) {
 	return func(m api.ResponseMessage) { s.fired(k, 1, "resp", m) }
 }
 func (s *System) respCb2(k string) func(api.ResponseMessage) {
 	return func(m api.ResponseMessage) { s.fired(k, 2, "resp", m) }
 }
-func (s *System) resCb1(k string) func(api.ResponseMessage) {
-	return func(m api.ResponseMessage) { s.fired(k, 1, "res", m) }
+
+// (result callbacks are not compared by the stack: they are closures of one literal, i.e. distinct callbacks that share their code)
+func (s *System) resCb(k string, cb int) func(api.ResponseMessage) {
+	return func(m api.ResponseMessage) { s.fired(k, cb, "res", m) }
 }
-func (s *System) resCb2(k string) func(api.ResponseMessage) {
-	return func(m api.ResponseMessage) { s.fired(k, 2, "res", m) }
-}
+func (s *System) resCb1(k string) func(api.ResponseMessage) { return s.resCb(k, 1) }
+func (s *System) resCb2(k string) func(api.ResponseMessage) { return s.resCb(k, 2) }
 
 func (s *System) drainCbf() []CbFire {
 	s.cbMu.Lock()
